@@ -39,6 +39,44 @@ TABLE = [
 ]
 
 
+def compound_variants():
+    """every combination of the optional clauses of compound statements, each clause with a body of its own
+    (a dropped or misplaced clause changes the AST)"""
+    import itertools
+
+    out = []
+    handlers = [[], ["except ValueError:\n    h1 = 1"], ["except ValueError as e:\n    h1 = e", "except (KeyError, IndexError):\n    h2 = 2"],
+                ["except:\n    h0 = 0"], ["except A:\n    h1 = 1", "except B as b:\n    h2 = b", "except:\n    h3 = 3"]]
+    for hs, has_else, has_fin in itertools.product(handlers, [False, True], [False, True]):
+        if not hs and (has_else or not has_fin):
+            continue
+        t = "try:\n    body = 1\n" + "".join(h + "\n" for h in hs)
+        if has_else:
+            t += "else:\n    other = 2\n"
+        if has_fin:
+            t += "finally:\n    fin = 3\n"
+        out.append(t.rstrip("\n"))
+        out.append("def f():\n" + "".join("    " + l + "\n" for l in t.rstrip("\n").split("\n")).rstrip("\n"))
+    for head in ["for i in a:", "while a:", "for i, j in a:", "for i in a, b:"]:
+        for has_else in (False, True):
+            for inner in ("    x = i", "    if i:\n        break\n    x = 1", "    continue"):
+                out.append(head + "\n" + inner + ("\nelse:\n    y = 2" if has_else else ""))
+    for n_elif, has_else in itertools.product([0, 1, 2], [False, True]):
+        t = "if a:\n    x = 0\n" + "".join(f"elif b{k}:\n    x = {k + 1}\n" for k in range(n_elif)) + ("else:\n    x = 9\n" if has_else else "")
+        out.append(t.rstrip("\n"))
+    for items in ["a", "a as b", "a, c", "a as b, c as d", "a as b, c, e as f", "a() as (b, c)", "a as b.c", "a as b[0]"]:
+        out.append(f"with {items}:\n    x = 1")
+    for bases, dec in itertools.product(["", "(B)", "(B, C)", "(B, metaclass=M)", "(*bs, **kw)"], ["", "@d\n", "@d1\n@d2(1)\n"]):
+        out.append(f"{dec}class A{bases}:\n    x = 1\n    def m(self):\n        return self.x")
+    for pat in ["1", "'s'", "[a, b]", "[a, *rest]", "{'k': v}", "{'k': v, **rest}", "P(x=1)", "P(1, y=2)", "a | b", "(1 | 2) as n", "_", "x if x > 1", "None", "[1, [2, _]]"]:
+        guard = ""
+        if " if " in pat:
+            pat, guard = pat.split(" if ")
+            guard = " if " + guard
+        out.append(f"match v:\n    case {pat}{guard}:\n        r = 1\n    case _:\n        r = 2")
+    return out
+
+
 def def_variants():
     """every combination of parameter kinds with/without defaults"""
     out = []
